@@ -342,8 +342,8 @@ theorem openStep_strip (cfg : PartCfg) (s : DC) (x : Xml) (c : Bool) (roots root
   simp [closeTableCell]
 
 @[simp] theorem closeStep_strip (cfg : PartCfg) (s : DC) (x : Xml) : closeStep cfg s (stripX x) = closeStep cfg s x := by
-  unfold closeStep
-  simp only [stripX_ptag, closeTableCell_strip]
+  unfold closeStep closeStepCore
+  simp only [stripX_ptag, closeTableCell_strip, elemDepth_strip]
 
 /-! ## the walk -/
 
